@@ -5,7 +5,7 @@ SPEC = dict(
     proof_files=['Proofs/Persist.v', 'Proofs/PersistDrv.v', 'Drv/Persist.v'],
     tie_vo=[],
     drivers=[dict(name='persist', drv_mod='Drv.Persist', drv_file='Drv/Persist.v', shard=40,
-                  args={'quick': ['n=150', 'steps=14', 'kills=30', 'killops=40'],
+                  args={'quick': ['n=150', 'steps=14', 'kills=32', 'killops=40', 'diskkills=1'],
                         'thorough': ['n=1500', 'steps=24', 'kills=320', 'killops=60', 'diskkills=1']},
                   timeout={'quick': 600, 'thorough': 3000})],
     rule='seq cases: seeded random sequences of save / load / delete / reopen (new Persistence value) / foreign-bytes writes '
